@@ -69,13 +69,17 @@ def gen_jobs(rng, n, Nmax):
             table = [[rng.choice([_val(i, 0), _val(i, 0), _val(i, 0), "nan", "inf", "-inf"])] + [_val(i, k + 1) for k in range(mp)] for i in range(N)]
             funcs = [[_fis_out(rng, i, mp, 0), _fis_out(rng, i, mp, 1)] for i in range(N)]
             jobs.append(dict(kind="fis", comp=comp, tryInt=ti, table=table, funcs=funcs, mp=mp))
+    # N = 0 (an empty function list: generation writes empty libraries for complexities without trees): stage 1 completes and
+    # writes an empty file; the Fisher stage stops in load_loglike on every rank (F18) - the model says `none` (fisherFile_empty)
+    jobs.append(dict(kind="fit", comp=rng.choice([2, 4]), tryInt=False, funcs=[]))
+    jobs.append(dict(kind="fis", comp=rng.choice([2, 4]), tryInt=False, table=[], funcs=[], mp=4))
     return jobs
 
 
 def crashes(jb):
     """does the PROPERTY's precondition fail for this script? (a retry that raises inside `except NameError:` has no handler
     in test_all_Fisher.main; such scripts are run in a launch of their own)"""
-    if jb["kind"] == "fis" and jb["mp"] < 4:
+    if jb["kind"] == "fis" and (jb["mp"] < 4 or len(jb["funcs"]) == 0):
         return True
     if jb["kind"] != "fis" or not jb["tryInt"]:
         return False
@@ -211,7 +215,7 @@ def run(ctx, njobs, Ps, Nmax):
     """returns (ops, mismatches)"""
     jobs = gen_jobs(ctx.rng, njobs, Nmax)
     plain = [j for j in jobs if not crashes(j)]
-    crash = [j for j in jobs if crashes(j)][:3]
+    crash = sorted([j for j in jobs if crashes(j)], key=lambda j: len(j["funcs"]) > 0)[:4]      # the N = 0 Fisher job first
     nops = nbad = 0
     for P in Ps:
         lines = [model_line(j, P) for j in plain]
